@@ -644,7 +644,6 @@ package sbom
 // the root list does not share its backing array with an edge's target list
 //@ pred addSep(nl *NodeList, nl2 *NodeList) = (forall e *Edge :: ((e in elems(nl.Edges)) || (e in elems(nl2.Edges))) ==> arr(e.To) == nil || arr(e.To) != arr(nl.RootElements))
 
-
 //@ func NodeList.Add
 //@   props C04, C08, C09
 //@   requires validNL(nl) && validNL(nl2) && separatedNL(nl, nl2)
